@@ -20,6 +20,9 @@ pub enum PrefixChoice {
     NoMatch,
     Tilde,
     Literal(String),
+    /// two prefixes: a directory prefix of a source name, then a directory prefix of what the
+    /// first one leaves (only the first may be stripped)
+    ThenRemainder { src: u16, cut: u16 },
 }
 
 #[derive(Clone, Debug, Hash, Serialize, Deserialize)]
@@ -31,7 +34,34 @@ pub struct Case {
 }
 
 fn resolve_prefixes(sources: &[String], choices: &[PrefixChoice]) -> Vec<String> {
-    choices
+    let mut out = vec![];
+    for c in choices {
+        if let PrefixChoice::ThenRemainder { src, cut } = c {
+            if sources.is_empty() {
+                continue;
+            }
+            let s = &sources[idx16(*src, sources.len())];
+            let cuts: Vec<usize> = s.match_indices('/').map(|(i, _)| i).collect();
+            if cuts.len() < 2 {
+                continue;
+            }
+            let k = idx16(*cut, cuts.len() - 1);
+            let (a, b) = (cuts[k], cuts[k + 1]);
+            if a == 0 {
+                // "/x/y": first prefix "" is not useful; use the first two components
+                continue;
+            }
+            out.push(s[..a].to_string());
+            out.push(s[a + 1..b].to_string());
+            continue;
+        }
+        out.push(resolve_one(sources, c));
+    }
+    out
+}
+
+fn resolve_one(sources: &[String], c: &PrefixChoice) -> String {
+    [c]
         .iter()
         .map(|c| match c {
             PrefixChoice::Dir { src, cut, trailing } => {
@@ -60,8 +90,10 @@ fn resolve_prefixes(sources: &[String], choices: &[PrefixChoice]) -> Vec<String>
             PrefixChoice::NoMatch => "no/such/prefix".to_string(),
             PrefixChoice::Tilde => "~".to_string(),
             PrefixChoice::Literal(s) => s.clone(),
+            PrefixChoice::ThenRemainder { .. } => unreachable!(),
         })
-        .collect()
+        .next()
+        .unwrap()
 }
 
 /// Result of stripping by the *explicit* prefixes: `Some(new)` if one matched.
@@ -295,6 +327,7 @@ fn prefix_choices() -> BoxedStrategy<Vec<PrefixChoice>> {
             1 => any::<u16>().prop_map(|src| PrefixChoice::Whole { src }),
             1 => Just(PrefixChoice::NoMatch),
             2 => Just(PrefixChoice::Tilde),
+            2 => (any::<u16>(), any::<u16>()).prop_map(|(src, cut)| PrefixChoice::ThenRemainder { src, cut }),
             1 => proptest::sample::select(vec!["", "/", "r", "/abs", "webpack://", "http:/"]).prop_map(|s| PrefixChoice::Literal(s.to_string())),
         ],
         0..4,
@@ -340,8 +373,74 @@ fn hermes(t: Tier) -> BoxedStrategy<Case> {
         .boxed()
 }
 
+/// Maps with about a thousand sources (and as many names), every one referenced, listed in an
+/// order different from first use.
+fn many_sources(_t: Tier) -> BoxedStrategy<Case> {
+    (
+        proptest::sample::select(vec![255usize, 256, 257, 1023, 1024, 1025, 1026, 1500, 2049]),
+        any::<u16>(),
+        any::<bool>(),
+        any::<bool>(),
+        prefix_choices(),
+        any::<bool>(),
+    )
+        .prop_map(|(n, stride, with_names, with_contents, prefixes, hermes)| {
+            // a permutation of 0..n by a stride coprime to n
+            let mut st = (stride as usize % n).max(1);
+            while gcd(st, n) != 1 {
+                st += 1;
+            }
+            let sources: Vec<String> = (0..n).map(|k| format!("/proj/dir{}/s{k}.js", k % 7)).collect();
+            let names: Vec<String> = (0..n).map(|k| format!("n{k}")).collect();
+            let tokens: Vec<MTok> = (0..n)
+                .map(|i| {
+                    let id = ((i * st) % n) as u32;
+                    MTok {
+                        dl: (i / 50) as u32,
+                        dc: (i % 50) as u32 * 3,
+                        src: Some(crate::refimpl::v3::RefSrc { id, line: id, col: id % 11, name: Some((n as u32 - 1) - id) }),
+                        range: false,
+                        junk: (0, 0),
+                    }
+                })
+                .collect();
+            let contents: Vec<Option<String>> = (0..n).map(|k| if k % 3 == 0 { Some(format!("content {k}")) } else { None }).collect();
+            let map = MM {
+                file: Some("big.js".into()),
+                root: None,
+                sources,
+                contents,
+                names,
+                tokens,
+                ignore: vec![],
+                debug_id: None,
+                route: if hermes { Route::Doc } else { Route::Raw },
+                json: JsonStyle::default(),
+            };
+            let any = if hermes {
+                let fb = (0..n)
+                    .map(|k| Some(vec![FbMap { names: vec![format!("fn{k}")], mappings: "AAA".into() }]))
+                    .collect();
+                MAny::Hermes(MHermes { map, fb })
+            } else {
+                MAny::Regular(map)
+            };
+            Case { map: any, with_names, with_contents, prefixes }
+        })
+        .boxed()
+}
+
+fn gcd(a: usize, b: usize) -> usize {
+    if b == 0 {
+        a
+    } else {
+        gcd(b, a % b)
+    }
+}
+
 fn subs() -> Vec<Sub> {
     vec![
+        gen_sub("many_sources", many_sources, |t| t.pick(40, 600), check),
         gen_sub("regular", regular, |t| t.pick(30_000, 600_000), check),
         gen_sub("hermes", hermes, |t| t.pick(8_000, 200_000), check),
     ]
@@ -349,9 +448,9 @@ fn subs() -> Vec<Sub> {
 
 pub const DEF: PropertyDef = PropertyDef {
     id: "C09",
-    rule: "model maps (duplicate/unreferenced sources and names, roots, partial contents, sources not in first-use order, range tokens, all \
+    rule: "many_sources: 255..2049 sources and names, every one referenced, in permuted order (regular and Hermes). model maps (duplicate/unreferenced sources and names, roots, partial contents, sources not in first-use order, range tokens, all \
            routes) x names on/off x contents on/off x 0..3 prefixes derived from the map's own source names (directory prefixes with and \
-           without trailing '/', a whole name, a non-matching prefix, literals, '~'); Hermes maps with one function map per distinct source \
+           without trailing '/', a whole name, a non-matching prefix, literals, '~', a prefix followed by a prefix of its remainder); Hermes maps with one function map per distinct source \
            name. Oracle: every token keeps position, original position, range flag, name (or none), source name minus the first matching \
            normalised prefix ('~': unchanged or cut at a '/' boundary, one common prefix for all), attached content = first non-absent \
            content of that source name in token order (none when dropped), Hermes scope unchanged; lists hold nothing unreferenced, no \
